@@ -85,6 +85,12 @@ type prodScenario struct {
 	Plans  map[string]*simPlan `json:"plans"`
 	Steps  []prodStep          `json:"steps"`
 	Gates  []prodGate          `json:"gates"`
+	// conducted replay: every internal step of a behaviour of spec/Producer.tla, followed at the hook points by the
+	// conductor (prod_driver_conduct_test.go) when the step list reaches op "conduct"
+	Conduct []condStep `json:"conduct"`
+	// conducted scenarios: a submission re-uses a message OBJECT the producer has already handed back on Successes()/Errors()
+	// (when there is one): to the producer it must be a new message like any other
+	Recycle bool `json:"recycle"`
 }
 
 type gateState struct {
@@ -259,6 +265,12 @@ func runProducerScenario(t testing.TB, rec *vRec, sc *prodScenario) {
 		"nbrokers": cfgv.NBrokers, "acks": cfgv.Acks, "codec": cfgv.Codec, "partitioner": cfgv.Partitioner,
 		"interceptors": cfgv.Interceptors, "sync": cfgv.Sync, "maxReqSize": cfgv.MaxReqSize, "version": cfgv.Version})
 
+	if len(sc.Conduct) > 0 {
+		// quiescence detection of the conductor: bytes in flight on the loopback connections are counted
+		condPairs.Range(func(k, v interface{}) bool { condPairs.Delete(k); return true })
+		atomic.StoreInt32(&condTrack, 1)
+		defer atomic.StoreInt32(&condTrack, 0)
+	}
 	c := newSimCluster(t, rec, cfgv.NBrokers, cfgv.Leaders)
 	defer c.Close()
 	if cfgv.IDBase0 {
@@ -281,7 +293,12 @@ func runProducerScenario(t testing.TB, rec *vRec, sc *prodScenario) {
 		gates[g.Name] = &gateState{g: g, arrived: make(chan struct{}), release: make(chan struct{})}
 	}
 	var hookCalls int64
-	if len(gates) > 0 || irec != nil {
+	var cd *conductor
+	if len(sc.Conduct) > 0 {
+		cd = newConductor(rec, c, sc.Conduct, cfgv.IDBase0)
+		defer cd.releaseAll()
+	}
+	if len(gates) > 0 || irec != nil || cd != nil {
 		verifHook = func(point string, args ...interface{}) {
 			atomic.AddInt64(&hookCalls, 1)
 			if irec != nil {
@@ -300,6 +317,9 @@ func runProducerScenario(t testing.TB, rec *vRec, sc *prodScenario) {
 					lv, _ := args[2].(int)
 					irec.Ev("pp_flush", kv{"part": int(pt), "level": lv})
 				}
+			}
+			if cd != nil {
+				cd.hook(point, args...)
 			}
 			if len(gates) == 0 {
 				return
@@ -416,6 +436,9 @@ func runProducerScenario(t testing.TB, rec *vRec, sc *prodScenario) {
 		defer func() { MaxRequestSize = old }()
 	}
 	vUseDialer(config)
+	if cd != nil {
+		config.Net.Proxy.Dialer = condDialer{vDialer{timeout: config.Net.DialTimeout}}
+	}
 	if err := config.Validate(); err != nil {
 		rec.Ev("skip", kv{"why": "config invalid: " + err.Error()})
 		return
@@ -455,6 +478,7 @@ func runProducerScenario(t testing.TB, rec *vRec, sc *prodScenario) {
 	// the message objects sarama handed back (op resubmit sends such an object again)
 	var retMu sync.Mutex
 	returned := map[int]*ProducerMessage{}
+	recycled := map[int]bool{}
 	wg.Add(2)
 	go func() {
 		defer wg.Done()
@@ -493,6 +517,11 @@ func runProducerScenario(t testing.TB, rec *vRec, sc *prodScenario) {
 			return
 		}
 		closed = true
+		if cd != nil {
+			// a conducted scenario parks goroutines at hooks and holds requests: all of that ends before Close is called
+			cd.releaseAll()
+			c.LiftHolds()
+		}
 		rec.Ev("close_call", kv{"async": async})
 		done := make(chan struct{})
 		go func() {
@@ -552,55 +581,91 @@ func runProducerScenario(t testing.TB, rec *vRec, sc *prodScenario) {
 		return true
 	}
 
+	conducting := false
+	var pendingSends []chan struct{}
+	doSubmit := func(st prodStep) {
+		size := st.Size
+		val := fmt.Sprintf("v%d|", st.ID)
+		if size > len(val) {
+			val += strings.Repeat("x", size-len(val))
+		}
+		m := &ProducerMessage{Topic: simTopic, Partition: int32(st.Part), Value: StringEncoder(val), Metadata: st.ID}
+		recycledFrom := 0
+		if sc.Recycle {
+			retMu.Lock()
+			for from, old := range returned {
+				if from > 0 && !recycled[from] && (recycledFrom == 0 || from < recycledFrom) && old != nil {
+					recycledFrom = from
+				}
+			}
+			if recycledFrom > 0 {
+				recycled[recycledFrom] = true
+				m = returned[recycledFrom]
+				m.Metadata, m.Partition, m.Key, m.Headers, m.Value, m.Timestamp = st.ID, int32(st.Part), nil, nil, StringEncoder(val), time.Time{}
+			}
+			retMu.Unlock()
+		}
+		sub := &simSubmitted{value: []byte(val), tsMs: -1}
+		if cfgv.GrowIc > 0 && cfgv.Interceptors > 0 {
+			sub.value = []byte(val + strings.Repeat("g", cfgv.GrowIc))
+		}
+		if st.BadEnc {
+			m.Value = vBadEncoder{}
+		}
+		if st.Ts > 0 && v.IsAtLeast(V0_10_0_0) {
+			m.Timestamp = simT0.Add(time.Duration(st.Ts) * time.Millisecond)
+			sub.tsMs = m.Timestamp.UnixNano() / int64(time.Millisecond)
+		}
+		if st.NilVal {
+			m.Value = nil
+			sub.value = nil
+			st.Key = fmt.Sprintf("k%d", st.ID)
+		}
+		if st.Key != "" {
+			m.Key = StringEncoder(st.Key)
+			sub.key = []byte(st.Key)
+		}
+		for h := 0; h < st.Hdrs; h++ {
+			hd := RecordHeader{Key: []byte(fmt.Sprintf("h%d", h)), Value: []byte(fmt.Sprintf("hv%d", st.ID))}
+			m.Headers = append(m.Headers, hd)
+			sub.hdrs = append(sub.hdrs, hd)
+		}
+		if v.IsAtLeast(V0_11_0_0) {
+			for i := 0; i < cfgv.Interceptors; i++ {
+				sub.hdrs = append(sub.hdrs, RecordHeader{Key: []byte(fmt.Sprintf("ic%d", i+1)), Value: []byte("x")})
+			}
+		}
+		c.mu.Lock()
+		c.submitted[st.ID] = sub
+		c.mu.Unlock()
+		if recycledFrom > 0 {
+			rec.Ev("submit", kv{"id": st.ID, "part": st.Part, "keyed": st.Key != "", "size": len(val) + len(st.Key), "resubmitted_object_of": recycledFrom})
+		} else {
+			rec.Ev("submit", kv{"id": st.ID, "part": st.Part, "keyed": st.Key != "", "size": len(val) + len(st.Key)})
+		}
+		sent := make(chan struct{})
+		go func() { prod.Input() <- m; close(sent) }()
+		if conducting {
+			// the conductor may be holding the dispatcher: acceptance is awaited after the conducted part
+			pendingSends = append(pendingSends, sent)
+			return
+		}
+		if !vAwait(sent, vWait) {
+			rec.Ev("hang", kv{"what": "submit"})
+		}
+	}
+	submittedIDs := map[int]bool{}
+	if cd != nil {
+		cd.submit = func(id, part int) {
+			submittedIDs[id] = true
+			doSubmit(prodStep{Op: "submit", ID: id, Part: part})
+		}
+	}
 	freeRunning := false
 	for _, st := range sc.Steps {
 		switch st.Op {
 		case "submit":
-			size := st.Size
-			val := fmt.Sprintf("v%d|", st.ID)
-			if size > len(val) {
-				val += strings.Repeat("x", size-len(val))
-			}
-			m := &ProducerMessage{Topic: simTopic, Partition: int32(st.Part), Value: StringEncoder(val), Metadata: st.ID}
-			sub := &simSubmitted{value: []byte(val), tsMs: -1}
-			if cfgv.GrowIc > 0 && cfgv.Interceptors > 0 {
-				sub.value = []byte(val + strings.Repeat("g", cfgv.GrowIc))
-			}
-			if st.BadEnc {
-				m.Value = vBadEncoder{}
-			}
-			if st.Ts > 0 && v.IsAtLeast(V0_10_0_0) {
-				m.Timestamp = simT0.Add(time.Duration(st.Ts) * time.Millisecond)
-				sub.tsMs = m.Timestamp.UnixNano() / int64(time.Millisecond)
-			}
-			if st.NilVal {
-				m.Value = nil
-				sub.value = nil
-				st.Key = fmt.Sprintf("k%d", st.ID)
-			}
-			if st.Key != "" {
-				m.Key = StringEncoder(st.Key)
-				sub.key = []byte(st.Key)
-			}
-			for h := 0; h < st.Hdrs; h++ {
-				hd := RecordHeader{Key: []byte(fmt.Sprintf("h%d", h)), Value: []byte(fmt.Sprintf("hv%d", st.ID))}
-				m.Headers = append(m.Headers, hd)
-				sub.hdrs = append(sub.hdrs, hd)
-			}
-			if v.IsAtLeast(V0_11_0_0) {
-				for i := 0; i < cfgv.Interceptors; i++ {
-					sub.hdrs = append(sub.hdrs, RecordHeader{Key: []byte(fmt.Sprintf("ic%d", i+1)), Value: []byte("x")})
-				}
-			}
-			c.mu.Lock()
-			c.submitted[st.ID] = sub
-			c.mu.Unlock()
-			rec.Ev("submit", kv{"id": st.ID, "part": st.Part, "keyed": st.Key != "", "size": len(val) + len(st.Key)})
-			sent := make(chan struct{})
-			go func() { prod.Input() <- m; close(sent) }()
-			if !vAwait(sent, vWait) {
-				rec.Ev("hang", kv{"what": "submit"})
-			}
+			doSubmit(st)
 		case "resubmit":
 			// the application sends an object it got back on Successes()/Errors() again, as a new message
 			var m *ProducerMessage
@@ -706,6 +771,25 @@ func runProducerScenario(t testing.TB, rec *vRec, sc *prodScenario) {
 				case <-gs.release:
 				default:
 					close(gs.release)
+				}
+			}
+		case "conduct":
+			if cd != nil {
+				conducting = true
+				cd.run()
+				conducting = false
+				// nothing is parked or held any more: every submission made meanwhile must be accepted
+				for _, sent := range pendingSends {
+					if !vAwait(sent, vWait) {
+						rec.Ev("hang", kv{"what": "submit"})
+					}
+				}
+				pendingSends = nil
+				// whatever the behaviour had not submitted yet when it was left is submitted now (free-running)
+				for _, cs := range sc.Conduct {
+					if cs.K == "submit" && !submittedIDs[cs.ID] {
+						cd.submit(cs.ID, cs.Part)
+					}
 				}
 			}
 		case "close":
